@@ -91,6 +91,27 @@ impl Op {
     }
 }
 
+/// Subtracts the index shifts of `Far` lookups from captured ops; an index
+/// below its shift (a position the caller never handed out) is an error.
+pub fn unshift_ops(ops: Vec<Op>, so: usize, sn: usize) -> Result<Vec<Op>, String> {
+    if so == 0 && sn == 0 {
+        return Ok(ops);
+    }
+    ops.into_iter()
+        .map(|op| {
+            let bad = || format!("{:?} reports an index below the start of the caller's sequence", op);
+            Ok(match op {
+                Op::Equal(o, n, l) => Op::Equal(o.checked_sub(so).ok_or_else(bad)?, n.checked_sub(sn).ok_or_else(bad)?, l),
+                Op::Delete(o, l, n) => Op::Delete(o.checked_sub(so).ok_or_else(bad)?, l, n.checked_sub(sn).ok_or_else(bad)?),
+                Op::Insert(o, n, l) => Op::Insert(o.checked_sub(so).ok_or_else(bad)?, n.checked_sub(sn).ok_or_else(bad)?, l),
+                Op::Replace(o, ol, n, nl) => {
+                    Op::Replace(o.checked_sub(so).ok_or_else(bad)?, ol, n.checked_sub(sn).ok_or_else(bad)?, nl)
+                }
+            })
+        })
+        .collect()
+}
+
 pub fn calls_to_ops(calls: &[Call]) -> Vec<Op> {
     calls
         .iter()
